@@ -819,9 +819,30 @@ func (e *khEnv) judgeQuery(cb ssh.HostKeyCallback, paths []string, f *khFile, q 
 	var got kr.Outcome
 	var bad string
 	var gerr error
+	keySnap := key.Marshal()
+	ipSnap := append(net.IP(nil), q.Remote.IP...)
+	portSnap := q.Remote.Port
 	pv, stack := mon.Panics(func() { got, bad, gerr = goOutcome(cb, paths, f, q, key, keyB64) })
 	m.Eval()
 	m.Count("queries", 1)
+	if pv == nil {
+		mod := ""
+		switch {
+		case !bytes.Equal(keySnap, key.Marshal()):
+			mod = "key"
+		case !ipSnap.Equal(q.Remote.IP) || portSnap != q.Remote.Port:
+			mod = "remote"
+		}
+		for j, p := range paths {
+			if b, err := os.ReadFile(p); err == nil && string(b) != f.contents[j] {
+				mod = "file"
+			}
+		}
+		if mod != "" {
+			m.Violation("input-modified:knownhosts-callback:"+mod, map[string]any{"files": f.contents, "address": q.addr()})
+		}
+		m.Count("inputs_checked_unmodified", 1)
+	}
 	set, list := e.expected(f, q)
 	wit := func() map[string]any {
 		kn := q.KeyName
